@@ -46,6 +46,8 @@ fn main() {
         let hist = json!({"history": ops.iter().map(|o| o.to_json()).collect::<Vec<_>>(), "threads": cfg.threads, "merge_policy": cfg.merge_policy, "storage_ops_fault_free": n_ops});
         let ks: Vec<usize> = if thorough || total <= 70 { (0..total).collect() } else {
             let mut v: BTreeSet<usize> = (0..total).step_by(total / 24 + 1).collect();
+            // every replace of meta.json / .managed.json and every directory sync of the fault-free run
+            for e in dry.log().iter().filter(|e| matches!(e.kind, OpKind::AtomicWrite | OpKind::SyncDir)) { if rng.chance(2, 3) { v.insert(e.seq); } }
             for _ in 0..12 { v.insert(rng.below(total as u64) as usize); }
             v.into_iter().collect()
         };
